@@ -58,6 +58,12 @@ class Pools:
                 self.names.append(f"n{i}")
             i += 1
         self.names = list(dict.fromkeys(self.names))
+        # a local name that is itself a complete separator-less IRI of this stream (urn:..., tag:...):
+        # the same string then occurs as a whole-IRI name entry and as the local name of another IRI
+        sepless = [p for p in self.prefixes if p and "/" not in p and "#" not in p]
+        if sepless and self.names and rng.random() < 0.5:
+            self.names[rng.randrange(len(self.names))] = rng.choice(sepless) + self.names[0]
+            self.names = list(dict.fromkeys(self.names))
         k = 0
         while len(self.names) < max(1, n_name):
             self.names.append(f"m{k}")
